@@ -884,6 +884,10 @@ class Interp:
             return r
         # 3. interpret the callee
         body = self.find_body(fn)
+        if body is None and not self.mono and fn.get("trait") and args and not fn.get("rpath"):
+            # generic tables: a trait method called on a type parameter (`<M as Mer>::len` inside a generic adapter) whose receiver is, in this
+            # run, a value of a crate type: the impl of that type is what runs
+            body = self.impl_for_receiver(fn, args[0])
         if body is not None:
             if path.split("::")[-1] in ("call", "call_mut", "call_once") and len(args) == 2 and isinstance(args[1], Tup):
                 recv = args[0]
@@ -915,6 +919,31 @@ class Interp:
             if STRICT:
                 raise Unsupported("call to %s is neither modelled nor interpretable (at %s)" % (fn.get("key") or path, self.facts.site(caller, site)))
         return self.abstract_of(dest_ty, tg, {"call": path})
+
+    def impl_for_receiver(self, fn, a0):
+        v = a0
+        n = 0
+        while isinstance(v, Ref) and n < 3:
+            try:
+                v = self.read(v.cell, v.path)
+            except Exception:
+                return None
+            n += 1
+        if not isinstance(v, Adt) or not getattr(v, "name", None):
+            return None
+        idx = getattr(self.facts, "_impl_index", None)
+        if idx is None:
+            idx = {}
+            for p_, b_ in self.facts.fns.items():
+                if p_.startswith("<") and " as " in p_ and ">::" in p_:
+                    head, meth = p_[1:].rsplit(">::", 1)
+                    if "::" in meth:
+                        continue
+                    sty, tr = head.split(" as ", 1)
+                    idx.setdefault((sty.split("<")[0], tr.split("<")[0].split("::")[-1], meth), []).append(b_)
+            self.facts._impl_index = idx
+        c = idx.get((v.name, fn["trait"].split("<")[0].split("::")[-1], fn.get("path", "").split("::")[-1]), [])
+        return c[0] if len(c) == 1 else None
 
     def find_body(self, fn):
         if self.mono:
